@@ -29,6 +29,7 @@ def run_property(prop: str, project: Project, tier: str) -> R.Report:
     mod = importlib.import_module(f"sa.checks.{prop.lower()}")
     rep = R.Report(prop=prop, tier=tier)
     mod.check(project, rep)
+    rep.check_nonvacuous()
     return rep
 
 
